@@ -420,8 +420,8 @@ HASHSEEDS = {'quick': [1, 17, 4242], 'thorough': [1, 2, 3, 5, 8, 13, 17, 21, 99,
 
 
 def plan(tier, seed, scale=1.0):
-    nflow = int((640 if tier == 'quick' else 24000) * scale)
-    nproj = int((240 if tier == 'quick' else 8000) * scale)
+    nflow = int((640 if tier == 'quick' else 7000) * scale)
+    nproj = int((240 if tier == 'quick' else 2500) * scale)
     per = 10 if tier == 'quick' else 50
     units = []
     for i in range(0, nflow, per):
